@@ -1310,12 +1310,23 @@ def _l_count(interp, args, kwargs, node):
     return n
 
 
+def _l_remove(interp, args, kwargs, node):
+    owner_check(interp, args[0], getattr(node, 'lineno', None))
+    i = _l_index(interp, args, kwargs, node)       # first equal element, ValueError if none
+    del args[0][i]
+
+
+def _l_reverse(interp, args, kwargs, node):
+    owner_check(interp, args[0], getattr(node, 'lineno', None))
+    args[0].reverse()
+
+
 def _l_unsupported(interp, args, kwargs, node):
     raise Unsupported("list method")
 
 
 LIST_IMPL = {'append': _l_append, 'extend': _l_extend, 'pop': _l_pop, 'index': _l_index, 'insert': _l_insert,
-             'copy': _l_copy, 'count': _l_count, 'remove': _l_unsupported, 'reverse': _l_unsupported,
+             'copy': _l_copy, 'count': _l_count, 'remove': _l_remove, 'reverse': _l_reverse,
              'sort': _l_unsupported}
 
 
